@@ -17,8 +17,9 @@ StateAt(g, k) == IF k = 0 THEN g.pre ELSE IF g.steps[k].same THEN StateAt(g, k -
 
 StepFailing(g, k) ==
   LET st == g.steps[k] IN
-  (IF st.out # "ok" THEN {"Accepted"} ELSE {}) \cup
-  (IF st.same /\ st.a.op = "SaveReopen" THEN {} ELSE Failing(StateAt(g, k - 1), st.a, StateAt(g, k)))
+  \* a public call that raised is named by that alone (the clauses describe what a call that returned has done)
+  IF st.out # "ok" THEN {"Accepted"}
+  ELSE IF st.same /\ st.a.op = "SaveReopen" THEN {} ELSE Failing(StateAt(g, k - 1), st.a, StateAt(g, k))
 Bad(g) == {[at |-> "step", k |-> k, op |-> g.steps[k].a.op, failing |-> StepFailing(g, k)] :
              k \in {j \in DOMAIN g.steps : StepFailing(g, j) # {}}}
 
@@ -28,7 +29,7 @@ Applicable(b, a) ==
     [] OTHER -> TRUE
 DriftImpl(g) == Cardinality({k \in DOMAIN g.steps :
                   LET b == StateAt(g, k - 1).body a == g.steps[k].a IN
-                  ~(g.steps[k].same /\ a.op = "SaveReopen") /\ (~Applicable(b, a) \/ StateAt(g, k).body # ImplBody(b, a))})
+                  g.steps[k].out = "ok" /\ ~(g.steps[k].same /\ a.op = "SaveReopen") /\ (~Applicable(b, a) \/ StateAt(g, k).body # ImplBody(b, a))})
 ReadersOff(o) == o.rd # Readers(o.body)
 DriftReaders(g) == (IF ReadersOff(g.pre) THEN 1 ELSE 0) +
                    Cardinality({k \in DOMAIN g.steps : ~g.steps[k].same /\ ReadersOff(g.steps[k].t)})
